@@ -299,6 +299,10 @@ class VecInterp(SE.Interp):
         return super().ext_call(fp, args)
 
     def ext_method(self, name, callee, recv, args):
+        if isinstance(recv, bool) and name == "then_some" and len(args) == 1:
+            return H.some(args[0]) if recv else H.NONE_V
+        if isinstance(recv, bool) and name == "then" and len(args) == 1:
+            return H.some(self.call_closure(args[0], [])) if recv else H.NONE_V
         # ---- finite iterator algebra: an iterator over a vector / slice / range is the list of its items ----------
         if isinstance(recv, (Vec, View)) and name in ("iter", "into_iter"):
             return ("iter", list(recv.items if isinstance(recv, Vec) else recv.get()))
@@ -696,17 +700,18 @@ def scroll_primitives(ctx, w, S, rule, spec=True):
                 for end in range(start + 1, rows + 1):
                     for n in range(0, rows + 2):
                       for cfg in configs:
-                        for which in ("up", "down"):
+                        for which, lastmark in (("up", False), ("up", True), ("down", False)):
+                            # lastmark: the last screen row carries a soft-wrap mark (a character has just wrapped off it and the scroll follows)
                             names = ["s%d" % i for i in range(sb)] + ["r%d" % i for i in range(rows)]
                             wr0 = {nm: True for nm in names}
-                            wr0[names[-1]] = False
+                            wr0[names[-1]] = lastmark
                             lines = [("obj", S.line_ty, {S.cells_field: Vec([("sym", nm + "a"), ("sym", nm + "b")]), S.wrap_field: wr0[nm]}) for nm in names]
                             flds = {f["name"]: default_of(f) for f in bf}
                             flds.update({S.lines_field: Vec(lines), S.buf_cols: cols, S.buf_rows: rows})
                             flds.update(deep_cfg(cfg))
                             buf = ("obj", S.buffer_ty, flds)
                             it = VecInterp(w.facts)
-                            key = "%s/rows=%d,sb=%d,%d..%d,n=%d%s" % (which, rows, sb, start, end, n, "".join(",%s=%s" % (k_, cfg_str(v_)) for k_, v_ in cfg.items()))
+                            key = "%s/rows=%d,sb=%d,%d..%d,n=%d%s%s" % (which, rows, sb, start, end, n, ",last-row-marked" if lastmark else "", "".join(",%s=%s" % (k_, cfg_str(v_)) for k_, v_ in cfg.items()))
                             got, gotw = [], []
                             try:
                                 it.call_fn(up if which == "up" else down, [buf, ("range", start, end, False), n, pen])
@@ -749,7 +754,16 @@ def scroll_primitives(ctx, w, S, rule, spec=True):
                                             break
                                         continue
                                     nxt = got[i + 1] if i + 1 < len(got) else None
-                                    if gotw[i] and not wr0[nm]:
+                                    if lastmark and nm == names[-1] and which == "up" and end == rows:
+                                        # the row a character wrapped off: its continuation is printed on the row the scroll vacates
+                                        if not gotw[i]:
+                                            msg = "the last screen row, soft-wrapped before the scroll, lost its mark on the way up (the text that continues below it is cut off from it)"
+                                    elif nm.startswith("s") and i < sb:
+                                        # a line already in the scrollback is never altered (its mark included); that the tree leaves the mark of the
+                                        # last scrollback line set when row 0 is scrolled down is noted in DESIGN.md and outside the statements
+                                        if gotw[i] != wr0[nm]:
+                                            msg = "scrollback line %s had its soft-wrap mark changed (%s -> %s); lines above the screen are never altered" % (nm, wr0[nm], gotw[i])
+                                    elif gotw[i] and not wr0[nm]:
                                         msg = "row %s gained a soft-wrap mark" % nm
                                     elif gotw[i] and nxt != succ0[nm] and not nm.startswith("s"):
                                         # (a scrollback line keeps its mark when the first screen row is scrolled down: outside the property's statement, noted in DESIGN.md)
